@@ -109,37 +109,41 @@ static void *c18_memcpy(void *d, const void *s, size_t n)
 	return (memcpy)(d, s, n);
 }
 
-/* snprintf(s, n, fmt, one argument).  "%s": faithful.  Any other format: the argument is a
- * number already fetched by the caller; the length of its text is arbitrary. */
-static int c18_snprintf(char *s, size_t n, const char *fmt, uint64_t a)
+/* snprintf(s, n, fmt, one argument), selected by the argument's type (no pointer/integer casts: they would
+ * cost CBMC the constant propagation of the concrete strings).
+ *   string argument: "%s" is modelled faithfully (copy with truncation, returns strlen: C99 7.19.6.5);
+ *   integer argument: the argument was already fetched by the caller; the length of its text is arbitrary. */
+static int c18_snprintf_s(char *s, size_t n, const char *fmt, const char *arg)
 {
-	if (fmt[0] == '%' && fmt[1] == 's' && fmt[2] == '\0') {
-		const char *arg = (const char *) (uintptr_t) a;
-		size_t len = 0;
-		for (int k = 0; k < C18_MAXSTR; k++) {
-			if (arg[len] == '\0')
-				break;
-			len++;
-		}
-		__CPROVER_assert(arg[len] == '\0', "snprintf model: string within the bound");
-		c18_log_read(arg, len + 1);
-		if (n > 0) {
-			size_t m = len < n - 1 ? len : n - 1;
-			for (size_t i = 0; i < C18_MAXSTR; i++) {
-				if (i >= m)
-					break;
-				s[i] = arg[i];
-			}
-			s[m] = '\0';
-		}
-		return (int) len;
+	__CPROVER_assert(fmt[0] == '%' && fmt[1] == 's' && fmt[2] == '\0', "snprintf model: a string is printed with %s");
+	size_t len = 0;
+	for (int k = 0; k < C18_MAXSTR; k++) {
+		if (arg[len] == '\0')
+			break;
+		len++;
 	}
-	return verif_snprintf(s, n);
+	__CPROVER_assert(arg[len] == '\0', "snprintf model: string within the bound");
+	c18_log_read(arg, len + 1);
+	if (n > 0) {
+		size_t m = len < n - 1 ? len : n - 1;
+		for (size_t i = 0; i < C18_MAXSTR; i++) {
+			if (i >= m)
+				break;
+			s[i] = arg[i];
+		}
+		s[m] = '\0';
+	}
+	return (int) len;
 }
+static int c18_snprintf_u(char *s, size_t n, const char *fmt, uint64_t a) { (void) fmt; (void) a; return verif_snprintf(s, n); }
+static int c18_snprintf_i(char *s, size_t n, const char *fmt, int64_t a) { (void) fmt; (void) a; return verif_snprintf(s, n); }
+#define C18_SNPRINTF(s, n, fmt, a) _Generic((a), char *: c18_snprintf_s, const char *: c18_snprintf_s, \
+	uint8_t: c18_snprintf_u, uint16_t: c18_snprintf_u, uint32_t: c18_snprintf_u, uint64_t: c18_snprintf_u, \
+	default: c18_snprintf_i)((s), (n), (fmt), (a))
 /* the one-argument snprintf model is bound around ev_spec.c only (headers pulled in by model.c / setup.c
  * have other snprintf uses: they keep the prelude's binding) */
 #undef snprintf
-#define snprintf(s, n, fmt, a) c18_snprintf((s), (n), (fmt), (uint64_t) (uintptr_t) (a))
+#define snprintf(s, n, fmt, a) C18_SNPRINTF(s, n, fmt, a)
 #define memcpy(d, s, n) c18_memcpy((d), (s), (n))
 #include "ev_spec.c"         /* the real /repo/src/emu/ev_spec.c */
 #undef memcpy
